@@ -297,7 +297,7 @@ func (g *Gen) literal() spec.Operand {
 	return spec.Operand{IsLit: true, Lit: nil, LitText: []string{"null", "Null", "NULL"}[g.R.Intn(3)]}
 }
 
-var Regexes = []string{"a", "^a", "b$", "", "1", "(?i)A", "^$", "a|b", `\/`, "."}
+var Regexes = []string{"a", "^a", "b$", "", "1", "(?i)A", "^$", "a|b", `\/`, ".", `x\\`, `^\\`, `\\\/`}
 
 var CmpOps = []string{"==", "!=", "<", "<=", ">", ">="}
 
